@@ -25,6 +25,8 @@ CONFIGS = {
     "int_0": ("int", int, 0),
     "int_m1f": ("int", int, -1.0),      # integer labels with a float-typed integral sentinel
     "int_nan": ("int", int, NAN),
+    "float_nan32": ("float", float, np.float32("nan")),     # NaN spelled as a numpy scalar that is not a Python float
+    "float_nan16": ("float", float, np.float16("nan")),
     "str_nan": ("str", "<U3", "nan"),
     "str_empty": ("str", "<U3", ""),
     "obj_none": ("obj", object, None),
@@ -64,7 +66,7 @@ def is_sentinel(v, sentinel):
     """z3/py condition: entry v equals the sentinel (NaN aware)"""
     if sentinel is None:
         return v is None
-    if isinstance(sentinel, float) and np.isnan(sentinel):
+    if isinstance(sentinel, (float, np.floating)) and np.isnan(sentinel):
         if core.is_floatish(v):
             return boolexpr(core.s_isnan(v))
         return False
@@ -136,7 +138,7 @@ def _real_array(inputs, cfg, shape):
 def _is_sent_c(v, sentinel):
     if sentinel is None:
         return v is None
-    if isinstance(sentinel, float) and np.isnan(sentinel):
+    if isinstance(sentinel, (float, np.floating)) and np.isnan(sentinel):
         return isinstance(v, (float, np.floating)) and np.isnan(v)
     if isinstance(sentinel, str):
         return isinstance(v, str) and v == sentinel
@@ -217,7 +219,7 @@ def sym_encoder(c, cfg, shape, with_classes):
         # class labels are finite numbers (inf is not a meaningful class)
         for v in flat:
             c.assume(b_not(v.inf()))
-            if not (isinstance(sentinel, float) and np.isnan(sentinel)):
+            if not (isinstance(sentinel, (float, np.floating)) and np.isnan(sentinel)):
                 c.assume(b_not(v.nan))  # NaN is not a class label
     classes = None
     if with_classes:
